@@ -294,6 +294,14 @@ func (pg *program) Generate() error {
 func dependenciesFirst(program *loader.Program, pkgInfos []*loader.PackageInfo) []*loader.PackageInfo {
 	ordered := make([]*loader.PackageInfo, 0, len(pkgInfos))
 	done := make(map[*loader.PackageInfo]bool)
+	// The external test package of a directory (package p_test) shares that directory, and so its derived.gen.go, with the package it tests.
+	// Without derive calls of its own, all it does is remove the file, which has to happen before the package itself is generated.
+	// The loader lists these created packages first and they keep that place, whatever they import:
+	// package b_test typically imports a package that imports b.
+	for _, info := range program.Created {
+		done[info] = true
+		ordered = append(ordered, info)
+	}
 	var visit func(info *loader.PackageInfo)
 	visit = func(info *loader.PackageInfo) {
 		if done[info] {
